@@ -60,6 +60,10 @@ func main() {
 				fmt.Printf("%-60s TRUSTED (%s)\n", n, ct.Trusted)
 				continue
 			}
+			if strings.HasPrefix(n, "iface:") || strings.HasPrefix(n, "ext:") {
+				fmt.Printf("%-60s INTERFACE CONTRACT (proved for the methods that `implements` it)\n", n)
+				continue
+			}
 			r := VerifyFunction(L, n, ct, *prop)
 			if *only != "" {
 				var keepO []*Obligation
